@@ -77,6 +77,17 @@ Theorem C03_diamond_sync_rendezvous_run : forall D F c s r p c1 c2,
   exists d1 d2, step Sync D F c1 (Run p) = SStep d1 /\ step Sync D F c2 (Rendezvous s r) = SStep d2 /\ cfg_equiv d1 d2.
 Proof. exact diamond_sync_rendezvous_run. Qed.
 
+Theorem C03_error_stable : forall md D F c a b w e c',
+  ns_ok c -> indep_read md D c a b ->
+  step md D F c a = SError w e -> step md D F c b = SStep c' -> step md D F c' a = SError w e.
+Proof. exact error_stable. Qed.
+
+(* "at most one sender and one receiver per channel among the next actions" gives independence *)
+Theorem C03_async_discipline_indep : forall D F c a b c1 c2,
+  async_discipline D c -> a ≠ b ->
+  step Async D F c a = SStep c1 -> step Async D F c b = SStep c2 -> indep Async D c a b.
+Proof. exact async_discipline_indep. Qed.
+
 (* determinism under an invariant I: the three premises are the remaining hypotheses *)
 Theorem C03_determinism_partial : forall (md : exec_mode) (D : STypes.tenv) (F : list fundef) (I : config -> Prop),
   (forall c ch c', I c -> step md D F c ch = SStep c' -> I c') ->
@@ -181,6 +192,8 @@ Print Assumptions C03_diamond_async.
 Print Assumptions C03_async_send_recv_exclusive.
 Print Assumptions C03_diamond_sync_rendezvous.
 Print Assumptions C03_diamond_sync_rendezvous_run.
+Print Assumptions C03_error_stable.
+Print Assumptions C03_async_discipline_indep.
 Print Assumptions C03_determinism_partial.
 Print Assumptions C03_determinism_partial_safe.
 Print Assumptions C03_error_excludes_completion.
